@@ -14,4 +14,4 @@ Extraction "model.ml" Z.add Z.compare tree_layer part_all
   stats_divisions presorted_divisions
   ls_start ls_stop loc_divisions loc_parts ll_divisions ll_parts
   align_divisions align_single
-  head_lowered tail_lowered nfirst_tree nfirst_spec select sp_part sp_parts.
+  head_lowered tail_lowered nfirst_tree nfirst_spec select sp_part sp_parts sp_part_desc sp_parts_desc.
